@@ -260,6 +260,7 @@ pub fn plan_call(env: &Env, c: &CallSpec) -> CallPlan {
         "process_current_dir" => plan_dir(env, c, &abs_cwd, in_dir.as_deref(), out_dir.as_deref()),
         "process_root" => plan_dir(env, c, &abs_cwd, None, None),
         "process_src" => plan_dir(env, c, "./src", Some("./src"), None),
+        "write_file" => CallPlan::Files { files: vec![], dangling_skipped: 0, links_followed: 0 },
         "process_file" => {
             if in_dir.is_some() {
                 return CallPlan::Reject { why: "in_dir conflict (process_file)".into() };
